@@ -238,6 +238,14 @@ func C18(r *h.Run) {
 	pr := rng.Fork("percent")
 	pctCase("", true)
 	decCase("", true)
+	// long inputs that are mostly '%' (more escapes "promised" than bytes present), around the
+	// sizes of the pooled buffers
+	for _, n := range []int{2, 3, 100, 511, 512, 513, 514, 1024, 1025, 5000} {
+		decCase(strings.Repeat("%", n), n <= 100)
+		decCase(strings.Repeat("%%a", n/3+1), false)
+		decCase(strings.Repeat("%4", n/2+1), false)
+		decCase(strings.Repeat("a", n)+strings.Repeat("%", n), false)
+	}
 	for a := 0; a < 256; a++ {
 		pctCase(string([]byte{byte(a)}), true)
 		decCase(string([]byte{byte(a)}), true)
